@@ -44,4 +44,9 @@ theorem enums_eq : Generated.enums = Standard.enums := by rfl
 /-- every attribute of every object type carries the pinned converter and the pinned set of valid representation
 codes (the converter model `Model/Convert.lean` is instantiated from the pinned table) -/
 theorem convs_eq : Generated.convs = Standard.convs := by rfl
+/-- the classes of representation codes the numeric converters and the code inference consult, and the two date-time
+string formats, are the ones the converter model uses -/
+theorem codeClasses_eq : Generated.codeClasses =
+    [[1, 2, 3, 4, 5, 6, 7, 8, 9, 10, 11], [12, 13, 14], [15, 16, 17, 18], intCodes, numericCodes] := by decide
+theorem dtimeFormats_eq : Generated.dtimeFormats = ["%Y/%m/%d %H:%M:%S", "%Y.%m.%d %H:%M:%S"] := by decide
 end Dlis.Obligations
